@@ -36,7 +36,11 @@ PARTIAL = [
     "translator: comparison operators and factors of the iteration loop are re-parsed from fcp_tpa.py into Generated/FcpLoop.lean "
     "(C17.source_controller); an unrecognised source shape keeps the last generated file and is noted in the evidence",
 ]
-TRUSTED_EXTRA = []
+TRUSTED_EXTRA = [
+    "translator harness/c17.py:translate() (Python `ast`, syntax only: comparison operators, numeric literals, `*`/`/`/`**`, keyword "
+    "arguments of the iteration loop and of the normalisation block of FCPTPA.fit) -> lean/FDAModel/Generated/FcpLoop.lean; reference "
+    "translation harness/c17_fcploop_reference.lean used when the source shape is not recognised",
+]
 
 # --------------------------------------------------------------------------
 # translator: loop constants of `FCPTPA.fit` -> lean/FDAModel/Generated/FcpLoop.lean
@@ -152,6 +156,80 @@ def parse_fcp_loop(path):
     return out
 
 
+def _self_attr(node, attr):
+    return isinstance(node, ast.Attribute) and node.attr == attr and _name(node.value, "self")
+
+
+def _pow_of(node, var):
+    """`var` -> 1, `var ** k` / `np.power(var, k)` -> k, `np.square(var)` -> 2 (integer literal k)."""
+    if _name(node, var):
+        return 1
+    if isinstance(node, ast.BinOp) and isinstance(node.op, ast.Pow) and _name(node.left, var) and isinstance(node.right, ast.Constant) \
+            and isinstance(node.right.value, int) and not isinstance(node.right.value, bool):
+        return node.right.value
+    if isinstance(node, ast.Call) and isinstance(node.func, ast.Attribute) and _name(node.func.value, "np"):
+        if node.func.attr == "power" and len(node.args) == 2 and _name(node.args[0], var) and isinstance(node.args[1], ast.Constant) \
+                and isinstance(node.args[1].value, int) and not isinstance(node.args[1].value, bool):
+            return node.args[1].value
+        if node.func.attr == "square" and len(node.args) == 1 and _name(node.args[0], var):
+            return 2
+    raise _Unrecognised(f"power of {var}")
+
+
+def _scaled(node, base_pred, var, allow_index=False):
+    """`base * f(var)` -> +pow, `base / f(var)` -> -pow, where f is a power of `var` (optionally indexed `var[:, None, None]`)."""
+    if not (isinstance(node, ast.BinOp) and isinstance(node.op, (ast.Mult, ast.Div)) and base_pred(node.left)):
+        raise _Unrecognised("scaling by the norm")
+    r = node.right
+    if allow_index and isinstance(r, ast.Subscript) and _name(r.value, var):
+        k = 1
+    else:
+        k = _pow_of(r, var)
+    return k if isinstance(node.op, ast.Mult) else -k
+
+
+def parse_fcp_norm(path):
+    """The block `if self.normalize:` at the end of `FCPTPA.fit` (syntax only)."""
+    tree = ast.parse(open(path).read())
+    cls = [n for n in tree.body if isinstance(n, ast.ClassDef) and n.name == "FCPTPA"]
+    fit = [n for n in cls[0].body if isinstance(n, ast.FunctionDef) and n.name == "fit"]
+    blocks = [n for n in fit[0].body if isinstance(n, ast.If) and any(_self_attr(x, "normalize") for x in ast.walk(n.test))]
+    if len(blocks) != 1 or blocks[0].orelse:
+        raise _Unrecognised("normalisation block")
+    blk = blocks[0]
+    out = {"truth_test": _self_attr(blk.test, "normalize")}
+    if not out["truth_test"]:
+        t = blk.test
+        if not (isinstance(t, ast.Compare) and len(t.ops) == 1 and isinstance(t.ops[0], (ast.Is, ast.Eq)) and _self_attr(t.left, "normalize")
+                and isinstance(t.comparators[0], ast.Constant) and t.comparators[0].value is True):
+            raise _Unrecognised("test of the normalisation block")
+    assigns = {}
+    for st in blk.body:
+        if not (isinstance(st, ast.Assign) and len(st.targets) == 1):
+            raise _Unrecognised("statement in the normalisation block")
+        tg = st.targets[0]
+        key = tg.id if isinstance(tg, ast.Name) else ("self." + (tg.attr if _name(tg.value, "self") else tg.value.attr + "." + tg.attr))
+        assigns[key] = st.value
+    nd = assigns.get("norm_data")
+    if not (isinstance(nd, ast.Call) and isinstance(nd.func, ast.Attribute) and nd.func.attr == "norm" and _self_attr(nd.func.value, "_eigenfunctions") and not nd.args):
+        raise _Unrecognised("norm_data")
+    kw = {k.arg: k.value for k in nd.keywords}
+    if set(kw) - {"squared", "use_argvals_stand"} or not all(isinstance(v, ast.Constant) and isinstance(v.value, bool) for v in kw.values()):
+        raise _Unrecognised("arguments of norm")
+    out["norm_squared"] = kw["squared"].value if "squared" in kw else False
+    out["stand_grid"] = kw["use_argvals_stand"].value if "use_argvals_stand" in kw else False
+
+    def resolve(key):
+        v = assigns.get(key)
+        return assigns.get(v.id, v) if isinstance(v, ast.Name) else v
+
+    is_vals = lambda n: isinstance(n, ast.Attribute) and n.attr == "values" and _self_attr(n.value, "_eigenfunctions")  # noqa: E731
+    out["image_pow"] = _scaled(resolve("self._eigenfunctions.values"), is_vals, "norm_data", allow_index=True)
+    out["score_pow"] = _scaled(resolve("self._scores"), lambda n: _self_attr(n, "_scores"), "norm_data")
+    out["eig_pow"] = _scaled(resolve("self._eigenvalues"), lambda n: _self_attr(n, "_eigenvalues"), "norm_data")
+    return out
+
+
 def lean_source(x):
     b = lambda v: "true" if v else "false"  # noqa: E731
     q = x["tol_factor"]
@@ -161,8 +239,14 @@ namespace FDA.Generated
 /-- while {'values.any() and ' if x['zero_guard'] else ''}… `{'>' if x['cond_gt'] else '>='} tolerance`; `if n_iter {'>' if x['max_strict'] else '>='} max_iteration`; `n_iter {'<' if x['adapt_strict'] else '<='} {x['adapt_factor']} * max_iteration`; `tolerance = {q} * tolerance`; reset `n_iter {'>=' if x['reset_ge'] else '>'} max_iteration`. -/
 def fcpLoop : FDA.FCPTPA.LoopConsts :=
   {{ maxStrict := {b(x['max_strict'])}, adaptStrict := {b(x['adapt_strict'])}, adaptFactor := {x['adapt_factor']}, tolFactor := ({q.numerator} : Rat) / {q.denominator}, resetGe := {b(x['reset_ge'])}, condGt := {b(x['cond_gt'])}, zeroGuard := {b(x['zero_guard'])} }}
+/-- `if self.normalize{'' if x['truth_test'] else ' is True'}:`; `norm(squared={x['norm_squared']})`; eigenimages `* norm_data ^ {x['image_pow']}`; scores `* norm_data ^ {x['score_pow']}`; eigenvalues `* norm_data ^ {x['eig_pow']}`. -/
+def fcpNorm : FDA.FCPTPA.NormConsts :=
+  {{ truthTest := {b(x['truth_test'])}, normSquared := {b(x['norm_squared'])}, standGrid := {b(x['stand_grid'])}, imagePow := {x['image_pow']}, scorePow := {x['score_pow']}, eigPow := {x['eig_pow']} }}
 end FDA.Generated
 """
+
+
+REFERENCE = os.path.join(os.path.dirname(os.path.abspath(__file__)), "c17_fcploop_reference.lean")
 
 
 def translate():
@@ -172,20 +256,32 @@ def translate():
     path = os.path.join(common.REPO, "FDApy", "preprocessing", "dim_reduction", "fcp_tpa.py")
     try:
         x = parse_fcp_loop(path)
-    except (_Unrecognised, SyntaxError, OSError, KeyError, IndexError, AttributeError) as e:
+        x.update(parse_fcp_norm(path))
+    except (_Unrecognised, SyntaxError, KeyError, IndexError, AttributeError, TypeError) as e:
+        # NOT an alarm: fall back on the reference translation kept beside the translator (not on what an earlier
+        # run left in Generated/); the tie to the source rests on the correspondence for this run
+        TRANSLATOR.clear()
         TRANSLATOR.update(status="translator: source shape not recognised, tie rests on the correspondence only", detail=str(e)[:120])
+        print("note:", TRANSLATOR["status"], "(" + TRANSLATOR["detail"] + ")")
+        src = open(REFERENCE).read()
+        if not os.path.exists(GEN_FILE) or open(GEN_FILE).read() != src:
+            with open(GEN_FILE, "w") as fh:
+                fh.write(src)
         return
+    except OSError as e:
+        raise common.InfraError(f"translator: cannot read {path}: {e}")
     src = lean_source(x)
     old = open(GEN_FILE).read() if os.path.exists(GEN_FILE) else None
     if old != src:
         os.makedirs(os.path.dirname(GEN_FILE), exist_ok=True)
         with open(GEN_FILE, "w") as fh:
             fh.write(src)
+    TRANSLATOR.clear()
     TRANSLATOR.update(status="translated", regenerated=(old != src), **{k: (str(v) if isinstance(v, Fraction) else v) for k, v in x.items()})
 
 
 def extra_coverage(cases, impls, models):
-    return dict(translator=dict(TRANSLATOR, file="lean/FDAModel/Generated/FcpLoop.lean", theorem="C17.source_controller"))
+    return dict(translator=dict(TRANSLATOR, file="lean/FDAModel/Generated/FcpLoop.lean", theorems="C17.source_controller, C17.source_normalisation"))
 
 
 TOLS = [1e-8, 1e-7, 1e-6, 1e-5, 1e-4, 1e-3, 1e-2, 1e-1, 3e-5, 0.05, 2.5e-7]
